@@ -23,8 +23,13 @@ VARIABLES stack,      \* Money's converter stack (registration order)
           gen,        \* converter list of the generic type (registration order, no duplicates)
           probe,      \* observable: rate used by Money(1 B).convert(X), 0 = UnitConversionError
           gprobe,     \* observable: factor used by G(1 g1).convert(g2), 0 = UnitConversionError
-          out         \* outcome of the last step
-vars == <<stack, withs, gen, probe, gprobe, out>>
+          out,        \* outcome of the last step
+          marks,      \* history: length of the stack when each open block was entered
+          base,       \* history: the stack when the outermost open block was entered
+          disc        \* history: "disciplined" - since the outermost block was entered nothing registered
+                      \* before a block was removed inside it, and no leave failed
+vars == <<stack, withs, gen, probe, gprobe, out, marks, base, disc>>
+hist == <<marks, base, disc>>
 
 RateOf(c) == CASE c = "c1" -> 2 [] c = "c2" -> 4 [] c = "c3" -> 5
 \* generic callables: f1 converts g1->g2 by 2; f2 declines everything (returns None);
@@ -41,17 +46,24 @@ Has(s, x) == \E k \in DOMAIN s : s[k] = x
 Obs == /\ probe' = ProbeOf(stack') /\ gprobe' = GProbeOf(gen')
 
 Init == stack = <<>> /\ withs = <<>> /\ gen = <<>> /\ probe = 0 /\ gprobe = 0 /\ out = Out("init", "", TRUE)
+        /\ marks = <<>> /\ base = <<>> /\ disc = TRUE
 
 Register(c) == /\ Len(stack) < MaxDepth
                /\ stack' = Append(stack, c) /\ UNCHANGED <<withs, gen>> /\ out' = Out("register", c, TRUE) /\ Obs
+               /\ UNCHANGED hist
 Unregister(c) ==
     /\ IF stack # <<>> /\ stack[Len(stack)] = c
        THEN stack' = Pop(stack) /\ out' = Out("unregister", c, TRUE)
        ELSE stack' = stack /\ out' = Out("unregister", c, FALSE)          \* raises, nothing changes
-    /\ UNCHANGED <<withs, gen>> /\ Obs
+    /\ UNCHANGED <<withs, gen, marks, base>> /\ Obs
+    \* removing something that was registered before the innermost open block was entered breaks the discipline
+    /\ disc' = (disc /\ (marks = <<>> \/ Len(stack') > marks[Len(marks)]))
 Enter(c) == /\ Len(stack) < MaxDepth
             /\ stack' = Append(stack, c) /\ withs' = Append(withs, c)
             /\ UNCHANGED gen /\ out' = Out("enter", c, TRUE) /\ Obs
+            /\ marks' = Append(marks, Len(stack))
+            /\ base' = IF withs = <<>> THEN stack ELSE base
+            /\ disc' = IF withs = <<>> THEN TRUE ELSE disc
 \* leaving the innermost block (normally or by an exception) unregisters its converter;
 \* if other converters were registered inside and not removed, that raises and the stack is unchanged
 Leave(how) ==
@@ -61,13 +73,15 @@ Leave(how) ==
        /\ IF stack # <<>> /\ stack[Len(stack)] = c
           THEN stack' = Pop(stack) /\ out' = Out(how, c, TRUE)
           ELSE stack' = stack /\ out' = Out(how, c, FALSE)
-    /\ UNCHANGED gen /\ Obs
+    /\ UNCHANGED <<gen, base>> /\ Obs
+    /\ marks' = Pop(marks)
+    /\ disc' = (disc /\ out'.ok /\ Len(stack') = marks[Len(marks)])
 RegGen(f) == /\ gen' = IF Has(gen, f) THEN gen ELSE Append(gen, f)
-             /\ UNCHANGED <<stack, withs>> /\ out' = Out("reggen", f, TRUE) /\ Obs
+             /\ UNCHANGED <<stack, withs>> /\ out' = Out("reggen", f, TRUE) /\ Obs /\ UNCHANGED hist
 RemGen(f) == /\ IF Has(gen, f)
                 THEN gen' = SelectSeq(gen, LAMBDA x : x # f) /\ out' = Out("remgen", f, TRUE)
                 ELSE gen' = gen /\ out' = Out("remgen", f, FALSE)
-             /\ UNCHANGED <<stack, withs>> /\ Obs
+             /\ UNCHANGED <<stack, withs>> /\ Obs /\ UNCHANGED hist
 
 Next == \/ \E c \in Convs : Register(c) \/ Unregister(c) \/ Enter(c)
         \/ Leave("leave") \/ Leave("leave_exc")
@@ -84,5 +98,11 @@ PopOnly == [][(out'.act \in {"unregister", "leave", "leave_exc"} /\ out'.ok)
               => (stack # <<>> /\ stack' = Pop(stack) /\ stack[Len(stack)] = out'.c)]_vars
 \* entering and immediately leaving restores the stack (the base case of restoration; longer
 \* nestings follow by induction over PopOnly and are explored as behaviours)
+\* RESTORATION: once every block has been left - normally or by an exception - and the discipline was kept
+\* (whatever was registered directly inside a block was unregistered inside it), the stack, and with it the
+\* behaviour of conversions, is what it was before the outermost block was entered
+Restoration == (withs = <<>> /\ disc /\ out.act \in {"leave", "leave_exc"}) => (stack = base /\ probe = ProbeOf(base))
+\* under the discipline a leave never fails
+DisciplinedLeaveSucceeds == [][(out'.act \in {"leave", "leave_exc"} /\ disc /\ Len(stack) = marks[Len(marks)] + 1) => out'.ok]_vars
 GenNoDup == \A j, k \in DOMAIN gen : gen[j] = gen[k] => j = k
 =============================================================================
